@@ -254,3 +254,58 @@ def zero_over_runtime(t: T):
                 and not isinstance(_cv(s.args[1]), bool) and _cv(s.args[1]) == 0 and s.args[2].op != "const":
             out.append(s)
     return out
+
+
+VIEW_FUNCS = ("numpy.asarray", "numpy.asanyarray", "numpy.squeeze", "numpy.ravel", "numpy.reshape", "numpy.atleast_1d", "numpy.atleast_2d",
+              "numpy.transpose", "numpy.ascontiguousarray")
+VIEW_ATTRS = ("values", "T", "array", "real")
+VIEW_METHODS = ("squeeze", "ravel", "reshape", "view", "transpose", "to_numpy", "swapaxes")
+
+
+def may_alias(t: T, is_root) -> bool:
+    """Can t be (a view of) a value the function did not create?  Follows numpy / pandas operations that return the same
+    buffer (asarray without a dtype change, squeeze, reshape, .values, .T ...) down to a root accepted by is_root."""
+    seen = 0
+    stack = [t]
+    while stack and seen < 64:
+        x = stack.pop()
+        seen += 1
+        if is_root(x):
+            return True
+        if x.op in ("assume",):
+            stack.append(x.args[1])
+        elif x.op == "ite":
+            stack.extend([x.args[1], x.args[2]])
+        elif x.op == "loopvar" and len(x.args) >= 3 and isinstance(x.args[2], T):
+            stack.append(x.args[2])
+        elif x.op == "attr" and x.args[1] in VIEW_ATTRS:
+            stack.append(x.args[0])
+        elif x.op == "call" and x.args[0].op == "global" and x.args[0].args[0] in VIEW_FUNCS and x.args[1]:
+            stack.append(x.args[1][0])
+        elif x.op == "call" and x.args[0].op == "attr" and x.args[0].args[1] in VIEW_METHODS:
+            stack.append(x.args[0].args[0])
+        elif x.op == "sub" and x.args[1].op == "slice":
+            stack.append(x.args[0])
+    return False
+
+
+def inplace_updates_of_foreign_values(r: Result, is_root):
+    """`x op= e` on a local name (ndarray.__iop__ updates the buffer) and `x[k] = v` where x may alias a value the function did
+    not create.  Returns [(event, description)]."""
+    import ast as _ast
+    out = []
+    for e in r.events:
+        if e.kind != "store":
+            continue
+        if e.data.get("tkind") == "name" and isinstance(e.node, _ast.AugAssign):
+            v = e.data["value"]
+            cur = v.args[1] if v.op == "binop" else None
+            if cur is not None and may_alias(cur, is_root):
+                out.append((e, "augmented assignment"))
+        elif e.data.get("tkind") == "sub" and isinstance(e.data.get("obj"), T):
+            holder = e.data["obj"]
+            while holder.op == "upd":
+                holder = holder.args[0]
+            if may_alias(holder, is_root):
+                out.append((e, "item assignment"))
+    return out
